@@ -126,6 +126,14 @@ def worse(worst: float, res) -> float:
     return max(worst, res)
 
 
+def low_quartile(xs):
+    """robust lower statistic of measured exponents: an exponent at finite coupling is a proxy
+    for the asymptotic order; an accidental cancellation of the leading coefficient depresses it
+    at isolated inputs, a wrong order depresses it at every input."""
+    xs = sorted(xs)
+    return xs[len(xs) // 4]
+
+
 def exp100(x: float) -> int:
     if not math.isfinite(x):
         return -9999
